@@ -330,3 +330,160 @@ def _build():
 
 
 _build()
+
+
+# --------------------------------------------------------------------------------------------
+# hand-written insertions that bypass the declarations (DESIGN.md 5/C10)
+
+
+def _tagged(M, tag, name="new"):
+    return SElem(decls.registry().get(tag), M.table, tagid=M.table.id(tag), name=name)
+
+
+def _post_valid(c, M, ct, kids0, after, own, child_tag):
+    c.ensures("valid_after.order_and_multiplicity", M.universal(after, "1"), child_tag=child_tag)
+    for si, claim in M.required_after(after, skip_required=own):
+        c.ensures("valid_after.required[%s]" % "|".join(ct.slots[si].tags), claim, child_tag=child_tag)
+    at = after.last_insert
+    if at is None:
+        c.fails("inserted", "no child was inserted", child_tag=child_tag)
+        return
+    c.ensures("child_present", z3.And(0 <= at, at < after.n, after.f(at) == M.table.id(child_tag)), child_tag=child_tag)
+    c.ensures("one_more", after.n == kids0.n + 1, child_tag=child_tag)
+
+
+def _replay_spTree(meth_desc, build):
+    def replay(model, rec):
+        from pptx.oxml.ns import NamespacePrefixedTag
+        from pptx.oxml.xmlchemy import OxmlElement
+
+        S = xsd.load()
+        ct = S.complex_type(("http://schemas.openxmlformats.org/presentationml/2006/main", "CT_GroupShape"))
+        try:
+            before, after = build()
+        except Exception as e:
+            return {"confirmed": False, "detail": "replay could not run: %r" % (e,)}
+        ok, why = native_valid(ct, after)
+        return {"confirmed": not ok, "witness_class": "misplaced-child",
+                "detail": "%s on a shape tree with children %s gives %s: %s" % (meth_desc, before, after, why or "valid"),
+                "input": {"children": before}}
+
+    return replay
+
+
+def _spTree_with_extLst():
+    """A real slide whose p:spTree ends with p:extLst (schema-permitted; PowerPoint writes it)."""
+    from pyvc import native
+    from pptx.oxml.xmlchemy import OxmlElement
+
+    slide = native.blank_slide()
+    spTree = slide.shapes._spTree
+    spTree.append(OxmlElement("p:extLst"))
+    return slide, spTree
+
+
+def _kids_tags(spTree):
+    from pptx.oxml.ns import NamespacePrefixedTag
+
+    return [str(NamespacePrefixedTag.from_clark_name(e.tag)) for e in spTree]
+
+
+def _group_add_contracts():
+    from pptx.oxml.shapes.groupshape import CT_GroupShape
+
+    S = xsd.load()
+    P = "http://schemas.openxmlformats.org/presentationml/2006/main"
+    ct = S.complex_type((P, "CT_GroupShape"))
+    M = Model(ct)
+    creators = {
+        "add_autoshape": ("pptx.oxml.shapes.autoshape:CT_Shape.new_autoshape_sp", "p:sp", 7),
+        "add_cxnSp": ("pptx.oxml.shapes.connector:CT_Connector.new_cxnSp", "p:cxnSp", 9),
+        "add_freeform_sp": ("pptx.oxml.shapes.autoshape:CT_Shape.new_freeform_sp", "p:sp", 4),
+        "add_grpSp": ("pptx.oxml.shapes.groupshape:CT_GroupShape.new_grpSp", "p:grpSp", 0),
+        "add_pic": ("pptx.oxml.shapes.picture:CT_Picture.new_pic", "p:pic", 8),
+        "add_placeholder": ("pptx.oxml.shapes.autoshape:CT_Shape.new_placeholder_sp", "p:sp", 6),
+        "add_table": ("pptx.oxml.shapes.graphfrm:CT_GraphicalObjectFrame.new_table_graphicFrame", "p:graphicFrame", 8),
+        "add_textbox": ("pptx.oxml.shapes.autoshape:CT_Shape.new_textbox_sp", "p:sp", 6),
+    }
+    for meth, (creator_qn, tag, nargs) in creators.items():
+        def build(meth=meth):
+            slide, spTree = _spTree_with_extLst()
+            before = _kids_tags(spTree)
+            sh = slide.shapes
+            {"add_autoshape": lambda: sh.add_shape(1, 0, 0, 10, 10), "add_cxnSp": lambda: sh.add_connector(1, 0, 0, 5, 5),
+             "add_freeform_sp": lambda: sh.build_freeform(0, 0).add_line_segments([(1, 1), (2, 0)]).convert_to_shape(),
+             "add_grpSp": lambda: sh.add_group_shape(), "add_pic": lambda: spTree.add_pic(9, "n", "d", "rId9", 0, 0, 1, 1),
+             "add_placeholder": lambda: spTree.add_placeholder(9, "n", __import__("pptx.enum.shapes", fromlist=["x"]).PP_PLACEHOLDER.BODY, "horz", "full", 1),
+             "add_table": lambda: sh.add_table(1, 1, 0, 0, 10, 10), "add_textbox": lambda: sh.add_textbox(0, 0, 10, 10)}[meth]()
+            return before, _kids_tags(spTree)
+
+        @contract("C10", "C10.oxml.shapes.groupshape.CT_GroupShape.%s@CT_GroupShape<%s>" % (meth, tag),
+                  replay=_replay_spTree("CT_GroupShape.%s" % meth, build), timeout_ms=15000)
+        def body(c, meth=meth, creator_qn=creator_qn, tag=tag, nargs=nargs):
+            """hand-written `insert_element_before(x, 'p:extLst')`: the new shape lands in the shape slot."""
+            kids0, K, n = Kids.symbolic("K")
+            parent = SElem(CT_GroupShape, M.table, kids=kids0, name="spTree")
+            c.requires(M.axioms())
+            c.requires(M.valid_pre(kids0))
+            c.summaries[creator_qn] = lambda it, a, k: _tagged(M, tag)
+            c.summaries["pptx.enum.base:BaseXmlEnum.to_xml"] = lambda it, a, k: "line"
+            parent.fields["_next_shape_id"] = c.int("next_id")
+            args = [c.int("a%d" % i) for i in range(nargs)]
+            out = c.run(getattr(CT_GroupShape, meth), parent, *args)
+            if out.raised:
+                c.fails("raises", "%s raised %s" % (meth, out.exc), child_tag=tag)
+                return
+            _post_valid(c, M, ct, kids0, parent.kids, None, tag)
+
+        del body
+
+    # shapetree.py: add_group_shape moves existing shapes into the new group with the same idiom, and
+    # add_chart / add_ole_object append the graphic frame to the shape tree
+    import pptx.shapes.shapetree as st
+
+    def build_chart():
+        from pptx.chart.data import CategoryChartData
+        from pptx.enum.chart import XL_CHART_TYPE
+
+        slide, spTree = _spTree_with_extLst()
+        before = _kids_tags(spTree)
+        cd = CategoryChartData()
+        cd.categories = ["a"]
+        cd.add_series("s", (1,))
+        slide.shapes.add_chart(XL_CHART_TYPE.PIE, 0, 0, 10, 10, cd)
+        return before, _kids_tags(spTree)
+
+    @contract("C10", "C10.shapes.shapetree._BaseGroupShapes._add_chart_graphicFrame@CT_GroupShape<p:graphicFrame>",
+              replay=_replay_spTree("shapes.add_chart()", build_chart), timeout_ms=15000)
+    def _chart(c):
+        """add_chart places the p:graphicFrame where CT_GroupShape allows it, whatever siblings exist."""
+        from pyvc.engine import SObj
+
+        kids0, K, n = Kids.symbolic("K")
+        spTree = SElem(CT_GroupShape, M.table, kids=kids0, name="spTree")
+        c.requires(M.axioms())
+        c.requires(M.valid_pre(kids0))
+        c.summaries["pptx.oxml.shapes.graphfrm:CT_GraphicalObjectFrame.new_chart_graphicFrame"] = lambda it, a, k: _tagged(M, "p:graphicFrame")
+        shapes = SObj(st._BaseGroupShapes, "shapes", _spTree=spTree, _next_shape_id=c.int("next_id"))
+        out = c.run(st._BaseGroupShapes._add_chart_graphicFrame, shapes, "rId1", c.int("x"), c.int("y"), c.int("cx"), c.int("cy"))
+        if out.raised:
+            c.fails("raises", "raised %s" % out.exc, child_tag="p:graphicFrame")
+            return
+        _post_valid(c, M, ct, kids0, spTree.kids, None, "p:graphicFrame")
+
+
+_group_add_contracts()
+
+
+def _scope_job(tier="quick", seed=0):
+    """Reports which declarations carry obligations and which do not (and why) -- no verdict of its own."""
+    cov = {k: sorted(set(v)) for k, v in COVERAGE.items()}
+    return {"contract": "C10.scope", "prop": "C10", "status": "ok", "obligations": [], "paths": 0, "assumed": [], "functions": {}, "notes": [],
+            "solver_s": 0.0, "wall_s": 0.0,
+            "coverage": {"declarations_unreferenced_no_obligation": cov["unreferenced"][:400],
+                         "declarations_not_applicable_in_type": len(cov["not_applicable_in_type"]),
+                         "declarations_not_flattened_not_claimed": cov["not_flattened"],
+                         "registered_tags_without_reachable_xsd_type": cov["no_xsd_type"]}}
+
+
+JOBS = {"C10.scope": _scope_job}
